@@ -455,7 +455,7 @@ def check_c53(ctx):
     # (terminal / non-terminal) that behaves differently
     lists = [("REQ_HEADER_SET", "CLOSE", 1, 2), ("CLOSE", "REQ_HEADER_SET", 1, 2)] if q else \
             [(a1, a2, t1, t2) for a1 in ("PASS", "REQ_HEADER_SET", "CLOSE", "FINISH") for a2 in ("REQ_HEADER_SET", "CLOSE")
-             for t1, t2 in ((1, 2), (2, 1), (0, 1))]
+             for t1, t2 in ((1, 2), (2, 1))]
     for a1, a2, t1, t2 in lists:
         d = {"NKEYS": 1, "NRULES": 2, "TH": t1, "TH2": t2, "ACT1": a1, "ACT2": a2, "P": 3, "J": 2, "S": 1,
              "MAXT": 10, "MAXARR": 6}
